@@ -142,8 +142,8 @@ class Run:
         os.remove(path)
         return pieces
 
-    def validate(self, spec, piece, offset):
-        out = self.tlc(spec + ".tla", "Trace.cfg", env={"TRACE": piece, "PROP": self.prop}, workers=1, xmx="4g")
+    def validate(self, spec, piece, offset, prop=None):
+        out = self.tlc(spec + ".tla", "Trace.cfg", env={"TRACE": piece, "PROP": prop or self.prop}, workers=1, xmx="4g")
         if "Model checking completed. No error has been found." not in out:
             raise Infra("TLC failed validating %s with %s:\n%s" % (piece, spec, out[-3000:]))
         rej = [int(x) for x in re.findall(r'"REJECT\|(\d+)"', out)]
@@ -207,7 +207,7 @@ class Run:
         t1 = time.time()
         validated = 0
         with cf.ThreadPoolExecutor(max_workers=max(2, NCPU - 4)) as ex:
-            futs = {ex.submit(self.validate, spec, pp, off): (pp, off, kind) for pp, off, kind in pieces}
+            futs = {ex.submit(self.validate, spec, pp, off, tj.get("prop")): (pp, off, kind) for pp, off, kind in pieces}
             for fu in cf.as_completed(futs):
                 pp, off, kind = futs[fu]
                 rej, n = fu.result()
